@@ -1,1 +1,66 @@
-From PND Require Import Lib.Base.
+From PND Require Import Lib.Base Lib.Text Model.Pdu Model.PduWf Model.Negotiation Model.NegoPdu
+  Proofs.BaseProofs Proofs.TextProofs Proofs.NegotiationProofs Corr.CorrNego.
+
+Lemma chosen_first cfg tss :
+  option_map sy_name (chosen_item cfg tss) = first_supported cfg (map sy_name tss).
+Proof.
+  induction tss as [|t r IH]; [reflexivity|]. cbn [chosen_item map first_supported].
+  destruct (mem_b (sy_name t) (a_ts cfg)); [reflexivity|exact IH].
+Qed.
+
+Lemma answer_item_abs cfg x p : proposal_of x = Some p ->
+  exists y, answer_item cfg x = Some y /\ answer_of y = Some (answer_one cfg p).
+Proof.
+  destruct x as [r n|id r1 r2 r3 r4 a tss|id r1 r2 res r3 t|r subs]; try discriminate.
+  cbn [proposal_of]. intros H. injection H as <-.
+  unfold answer_item, answer_one. cbn [p_abs p_tss p_id].
+  destruct (mem_b (sy_name a) (a_served cfg)).
+  - pose proof (chosen_first cfg tss) as Hc.
+    destruct (chosen_item cfg tss) as [t|]; cbn [option_map] in Hc; rewrite <- Hc;
+      eexists; split; reflexivity.
+  - eexists; split; reflexivity.
+Qed.
+
+Lemma map_opt_answers cfg (xs : list item) : forall ps ys,
+  map_opt proposal_of xs = Some ps -> map_opt (answer_item cfg) xs = Some ys ->
+  map_opt answer_of ys = Some (answers cfg ps).
+Proof.
+  induction xs as [|x r IH]; intros ps ys Hp Hy.
+  - cbn in Hp, Hy. injection Hp as <-. injection Hy as <-. reflexivity.
+  - cbn [map_opt] in Hp, Hy.
+    destruct (proposal_of x) as [p|] eqn:Ep; [|discriminate].
+    destruct (map_opt proposal_of r) as [ps'|] eqn:Eps; [|discriminate]. injection Hp as <-.
+    destruct (answer_item_abs cfg x p Ep) as [y [Hy1 Hy2]]. rewrite Hy1 in Hy.
+    destruct (map_opt (answer_item cfg) r) as [ys'|] eqn:Eys; [|discriminate]. injection Hy as <-.
+    cbn [map_opt answers map]. rewrite Hy2. fold (answers cfg ps'). rewrite (IH ps' ys' eq_refl eq_refl). reflexivity.
+Qed.
+
+Lemma removelast_app_single {A} (l : list A) (x : A) : removelast (l ++ [x]) = l.
+Proof. rewrite removelast_app by discriminate. cbn [removelast]. apply app_nil_r. Qed.
+
+Lemma middle_wrap {A} (first : A) (mid : list A) (lastx : A) : middle (first :: mid ++ [lastx]) = mid.
+Proof. cbn [middle]. apply removelast_app_single. Qed.
+
+(* what the accepted association looks like, for every configuration and every request *)
+Lemma accept_pdu_spec cfg own rq m : accept_pdu cfg own rq = Some m ->
+  exists props,
+    map_opt proposal_of (middle (items_of rq)) = Some props
+    /\ map_opt answer_of (middle (items_of (acc_pdu m))) = Some (answers cfg props)
+    /\ acc_table m = served_table props (answers cfg props)
+    /\ called_of (acc_pdu m) = called_of rq /\ calling_of (acc_pdu m) = calling_of rq
+    /\ hd_error (items_of (acc_pdu m)) = hd_error (items_of rq).
+Proof.
+  destruct rq as [k r1 v r2 called calling r3 items| | | | |]; try discriminate.
+  cbn [accept_pdu items_of called_of calling_of].
+  destruct items as [|first rest]; [discriminate|].
+  destruct (last (first :: rest) (AppCtx 0 [])) as [| | |ur subs]; try discriminate.
+  destruct subs as [|s0 subs]; [discriminate|]. destruct s0 as [mr ml peer| | | | | | | |]; try discriminate.
+  destruct (map_opt (answer_item cfg) (middle (first :: rest))) as [ans|] eqn:Ea; [|discriminate].
+  destruct (map_opt proposal_of (middle (first :: rest))) as [props|] eqn:Ep; [|discriminate].
+  intros H. injection H as <-. exists props. cbn [acc_pdu acc_table items_of called_of calling_of].
+  split; [reflexivity|]. split.
+  - change ([first] ++ ans ++ [UserInfo ur (MaxLen mr ml (eff_limit own peer) :: subs)])
+      with (first :: ans ++ [UserInfo ur (MaxLen mr ml (eff_limit own peer) :: subs)]).
+    rewrite middle_wrap. exact (map_opt_answers cfg _ props ans Ep Ea).
+  - repeat split; reflexivity.
+Qed.
